@@ -8,7 +8,7 @@
    and content-type text are CR/LF-free printable text) which the check evaluates on the real tables. *)
 From SV Require Import Base.Bytes Base.BytesP Model.Headers Model.IOSched Spec.ChunkDecode Model.Chunked
                        Spec.RespParse Model.Response Proofs.IOSchedP Proofs.ChunkedP Proofs.RespParseP Proofs.ResponseP.
-From SV Require Import Generated.SourceParams Tie.ContentTypeTie.
+From SV Require Import Generated.SourceParams Tie.ContentTypeTie Base.SrcAst Tie.ResponseTie.
 
 (* C06.1  Round trip.  For every table, every response in the property's domain (normal; status
    100..999; any content type whose text is printable without edge blanks; any list of extra fields
@@ -169,6 +169,18 @@ Theorem c06_source_content_type_texts_ok :
   map fst src_ct_as_str_table = map fst ct_names.
 Proof. exact ct_as_str_table_ok. Qed.
 
+(* C06.src2  The statements of write_http_response (src/response.rs) that build the head, as TRANSLATED ON THIS RUN
+   (props/srcparams.py -> Generated/SourceParams.v: src_resp_head -- the header names, the format strings, the error
+   names and the order of the statements are the source's), interpreted by Tie/ResponseTie.v with head_bytes as the
+   only local variable, produce exactly the head (or the refusal) of the model the theorems above are about -- for
+   every response, close flag and reason / content-type table.  The part after the head (write_all, the match on
+   body.len(), copy_async under take / copy_chunked_async, flush) is checked for the transcribed shape. *)
+Theorem c06_head_is_the_source :
+  forall reason ct_text r close, eval_head reason ct_text r close = build_head reason ct_text false r close.
+Proof. exact response_head_tie. Qed.
+Theorem c06_head_translation_complete : src_problems_resp_head = 0%nat /\ src_resp_body_shape_ok = true.
+Proof. exact resp_head_translated. Qed.
+
 Print Assumptions c06_serialize_parse_roundtrip.
 Print Assumptions c06_sound_response_is_written.
 Print Assumptions c06_partial_writes_invisible.
@@ -182,3 +194,5 @@ Print Assumptions c06_serialize_injective.
 Print Assumptions c06_numbers_roundtrip.
 Print Assumptions c06_oracle_sound.
 Print Assumptions c06_source_content_type_texts_ok.
+Print Assumptions c06_head_is_the_source.
+Print Assumptions c06_head_translation_complete.
